@@ -2,12 +2,11 @@
    oracle inputs observed on the implementation (automatic checkpoint, log growth, chunk
    count); outputs = per op the store observation (result, frame_count, next_frame_id) and
    the vector observation (Stats.vec_enabled, Stats.has_vec_index, Stats.vector_count, the
-   documents search_vec / frame_embedding can reach, None when search_vec says "not enabled"),
-   plus the known-class predicate of the history. *)
+   documents search_vec / frame_embedding can reach, None when search_vec says "not enabled"). *)
 From MV Require Import Base.Prelude Model.Store Model.VecStore.
 Local Open Scope N_scope.
 
 Definition C14_in := list vop.
-Definition C14_out := (list vout * bool)%type.
+Definition C14_out := list vout.
 
-Definition C14_run (ops : C14_in) : C14_out := (snd (vrun vstate0 ops), known_class ops).
+Definition C14_run (ops : C14_in) : C14_out := snd (vrun vstate0 ops).
